@@ -12,7 +12,7 @@ from .. import re2z3 as R
 from .. import xh
 
 FILES = ["src/reuse/report.py", "src/reuse/project.py", "src/reuse/_licenses.py", "src/reuse/_util.py", "src/reuse/extract.py"]
-NEXPR = 11
+NEXPR = 12
 KNOWN = "licenseref-unprovided-reported-bad"
 
 
@@ -152,10 +152,12 @@ def run(ctx):
     tmo = 400 if tier == "quick" else 1500
     allforms = list(range(7))
     # one file, every way of use x every provision form of three identifiers (two identifier groups)
-    groups = [["MIT", "GPL-3.0", "LicenseRef-x"], ["Foo", "GPL-2.0-or-later", "Classpath-exception-2.0"]]
+    groups = [["MIT", "GPL-3.0", "LicenseRef-x"], ["Foo", "GPL-2.0-or-later", "Classpath-exception-2.0"], ["LicenseRef-a_b", "LicenseRef-x", "MIT"]]
     for e in range(NEXPR):
         for g in groups:
             if tier == "quick" and g is groups[1] and e not in (0, 5, 9):
+                continue
+            if tier == "quick" and g is groups[2] and e not in (0, 4, 11):
                 continue
             conds.append(
                 xh.Cond(
@@ -186,8 +188,8 @@ def run(ctx):
         "reuse.extract._LICENSEREF_PATTERN (RZ3, unbounded)",
     ]
     ctx.bounds = {
-        "identifier classes": "current (MIT), deprecated (GPL-3.0), exception (Classpath-exception-2.0), LicenseRef-x, unknown (Foo), wrong case (mit), with real bundled SPDX records",
-        "ways of use": "11 expressions: alone, with '+', AND, OR in parentheses, WITH, LicenseRef with '+', none; one or two files",
+        "identifier classes": "current (MIT), deprecated (GPL-3.0), exception (Classpath-exception-2.0), LicenseRef-x, malformed LicenseRef-a_b, unknown (Foo), wrong case (mit), with real bundled SPDX records",
+        "ways of use": "12 expressions: alone, with '+', AND, OR in parentheses, WITH, LicenseRef with '+', none; one or two files",
         "provision": "per identifier {absent, ID.txt, ID.md, ID (no extension), sub/ID.txt, ID+.txt, ID.txt with ID.txt.license}, three identifiers at a time",
     }
     ctx.stubs = ["project.reuse_info_of returns the chosen expression (C02/C04 own reading and precedence)", "glob.iglob / Path.exists / is_dir / is_file replaced by the listing", "random pseudo-checksum made deterministic", "pathlib pure methods and licence parsing run natively on concrete values"]
